@@ -14,7 +14,7 @@ func c08(c *Ctx) {
 	r := c.R
 	r.Explain = "OWN O1/O2/O3 over Payload of every rtp.Payloader implementation (callees and closures interpreted in " +
 		"place): no write whose destination may be the input buffer, every returned fragment freshly allocated, no " +
-		"receiver state pointing into the input at exit. BOUNDS: panic obligations and the fragment<=MTU contract (see per_rule)."
+		"receiver state pointing into the input at exit. BOUNDS: panic obligations and the fragment<=MTU contract (see per_rule). The MTU contract covers the AV1 payloader: its helpers are analysed modularly (preconditions owed at the calls, computeWriteSize's postcondition proved at its returns), the last packet of the list is a ghost memory cell, and the LEB128 length table is re-derived from WriteToLeb128 in the same run (LEB.len)."
 	fns := payloaders(c)
 	r.Floor("rtp.Payloader implementations", len(fns), 8)
 	writes, outs, keeps := 0, 0, 0
